@@ -82,10 +82,13 @@ def pick_int(rng, maxv, focus=False):
 
 
 class Gen:
-    def __init__(self, schema, rng, tier="quick"):
+    def __init__(self, schema, rng, tier="quick", canonical=False):
         self.s = schema
         self.rng = rng
         self.tier = tier
+        # canonical: only lossless, canonically encoded wire values (no over-long names, no unknown
+        # algorithms, no aliases): reference encodings for bytes -> value -> bytes round trips
+        self.canonical = canonical
 
     # ---------------------------------------------------------- values (encode side)
     def val(self, ty, present=None, focus=False, depth=0):
@@ -216,6 +219,8 @@ class Gen:
 
     def lossy_text(self, cap, focus):
         rng = self.rng
+        if self.canonical:
+            return cbor.T(utf8_text(rng, rng.choice([0, 1, cap - 1, cap, rng.below(cap + 1)])))
         n = rng.choice([0, 1, cap - 1, cap, cap + 1, cap + 2, cap + 3, cap + 4, 2 * cap, 300]) if (focus or rng.chance(1, 3)) else rng.below(cap + 8)
         return cbor.T(utf8_text(rng, n))
 
@@ -246,7 +251,7 @@ class Gen:
                 else:
                     v = self.wire(fty[1] if (fty[0] == "opt") else fty, sub, focus, depth + 1)
                 key = f["key"]
-                if f["aliases"] and rng.chance(1, 3):
+                if f["aliases"] and not self.canonical and rng.chance(1, 3):
                     key = rng.choice(f["aliases"])
                 pairs.append((key, v))
             return cbor.M(pairs)
@@ -257,6 +262,8 @@ class Gen:
         if d["kind"] == "custom":
             if name == "webauthn::Icon":
                 return cbor.T(utf8_text(rng, rng.choice([0, 1, 20, 128, 129, 400])))
+            if name == "webauthn::FilteredPublicKeyCredentialParameters" and self.canonical:
+                return [cbor.M([("alg", rng.choice([-7, -8])), ("type", "public-key")]) for _ in range(rng.below(3))]
             if name == "webauthn::FilteredPublicKeyCredentialParameters":
                 n = rng.choice([0, 1, 2, 3, 4, 7, 13]) if not rng.chance(1, 12) else rng.below(40)
                 out = []
